@@ -317,4 +317,14 @@ example : ¬ Dominates exG exR 1 3 := fun h =>
   absurd ((domBits_correct exG exR #[1, 3, 5, 9, 16, 48] (by decide +kernel) 3 1 (by decide) (by decide)).mpr h)
     (by decide)
 
+example : (domIter1 exG 0).map (·.toList) = some [1, 3, 5, 9, 63, 63] := by decide +kernel
+example : DomFrom exG 0 0 3 :=
+  (domIter1_correct exG 0 #[1, 3, 5, 9, 63, 63] (by decide +kernel) 3 0 (by decide) (by decide)).mp
+    (by decide)
+example : ¬ DomFrom exG 0 2 3 := fun h =>
+  absurd ((domIter1_correct exG 0 #[1, 3, 5, 9, 63, 63] (by decide +kernel) 3 2 (by decide) (by decide)).mpr h)
+    (by decide)
+example : (dget #[1, 3, 5, 9, 16, 48] 3).testBit 1 = dom exG exR 1 3 :=
+  domBits_eq_dom exG exR _ (by decide +kernel) 3 1 (by decide) (by decide)
+
 end Verif.C14
